@@ -1,0 +1,17 @@
+//! Hooks for the distro ownership checks (C14): read the process range a `NamingActor` works with.
+use crate::naming::cluster::model::ProcessRange;
+use crate::naming::core::NamingActor;
+use actix::prelude::*;
+
+/// answers the `current_range` the naming actor currently uses in `update_instance`
+#[derive(Message, Debug)]
+#[rtype(result = "Option<ProcessRange>")]
+pub struct VerifQueryNamingRange;
+
+impl Handler<VerifQueryNamingRange> for NamingActor {
+    type Result = Option<ProcessRange>;
+
+    fn handle(&mut self, _msg: VerifQueryNamingRange, _ctx: &mut Context<Self>) -> Self::Result {
+        self.current_range.clone()
+    }
+}
